@@ -31,7 +31,8 @@ MEMBERS = [(r'^valid\|nano::solver_state_t', 'nv_state_valid'), (r'^fx\|nano::so
 CALLS = [(r'^ctor\|nano::solver_state_t\|void \(const nano::function_t &', 'nv_state_make({&0}, (const struct nv_opaque*)0)'),
          (r'^ctor\|nano::solver_state_t\|void \(\)', 'nv_state_default()'),
          (r'^operator->\|', '(&{0})'), (r'^operator\*\|.*unique_ptr', '{0}'),
-         (r'^fabs\|', 'nv_fabs({0})'),
+         (r'^fabs\|', 'nv_fabs({0})'), (r'^max\|const double &', 'nv_fmax({0}, {1})'), (r'^min\|const double &', 'nv_fmin({0}, {1})'),
+         (r'^clamp\|const double &', 'nv_fclamp({0}, {1}, {2})'), (r'^isfinite\|', 'nv_isfinite({0})'),
          (r'^operator=\|.*solver_state_t', '({0} = {1})')]
 HOOKS = [hooks.param_hook()]
 COMMON = dict(types=TYPES, calls=CALLS, members=MEMBERS, hooks=HOOKS, opaque=OPAQUE, aggregates=['struct nv_tuple_b_f64'])
